@@ -86,9 +86,59 @@ fn pow2_neighbours_u64() -> Vec<u64> {
 fn f64s() -> Vec<f64> { vec![0.0, -0.0, 1.0, -1.5, 0.1, f64::MIN_POSITIVE, 5e-324, f64::MAX, f64::MIN, 1e300, 9007199254740993.0, f64::INFINITY, f64::NEG_INFINITY] }
 fn strings() -> Vec<String> { vec!["".into(), "a".into(), "héllo wörld €".into(), "x".repeat(300), "nil".into(), "undefined".into(), "true".into(), "ok".into(), "\u{10FFFF}".into()] }
 
+/// Derived Elixir struct mappings accept exactly their own module and shape (C20, and the wrong-shape side of C15).
+fn derived_struct_shapes(rep: &Report) -> serde_json::Value {
+    use erltf::OwnedTerm;
+    let item = Item { count: 1 << 40, label: "l".into(), maybe: Some(-1), list: vec![0, 255] };
+    let good = to_term(&item).expect("serialise");
+    let OwnedTerm::Map(gm) = &good else { rep.violation("derived struct does not serialise to a map", json!({})); return json!({}); };
+    let skey = OwnedTerm::atom("__struct__");
+    let n0 = rep.get("evaluations");
+    // 1. the module name must match exactly
+    for (name, ok) in [("Elixir.MyApp.Item", true), ("Elixir.Item", false), ("Elixir.XMyApp.Item", false), ("Elixir.Other.MyApp.Item", false), ("Elixir.MyApp.Item2", false), ("Elixir.MyApp.Ite", false),
+        ("MyApp.Item", false), ("elixir.myapp.item", false), ("Elixir.MyApp.Event", false), ("Elixir.MyApp.Item.", false), ("Elixir.MyApp", false), ("", false), ("Item", false)] {
+        rep.add("evaluations", 1);
+        let mut m = gm.clone();
+        m.insert(skey.clone(), OwnedTerm::atom(name));
+        let t = OwnedTerm::Map(m);
+        for (path, r) in [("term", from_term::<Item>(&t).ok()), ("bytes", erltf::encode(&t).ok().and_then(|b| from_bytes::<Item>(&b).ok()))] {
+            if ok && r.as_ref() != Some(&item) { rep.violation("derived struct rejects or alters a term of its own module", json!({"module": name, "path": path})); }
+            if !ok && r.is_some() { rep.violation("derived struct accepts a term of another module", json!({"declared_module": "MyApp.Item", "term_module": name, "path": path})); }
+        }
+    }
+    // (a map without __struct__, or with the module name as text, is accepted by the pinned derive: the statement does not
+    //  rule that leniency out, so it is not judged)
+    // 3. a missing field or a field of the wrong type is refused, not defaulted
+    for field in ["count", "label", "list"] {
+        rep.add("evaluations", 1);
+        let mut m = gm.clone();
+        m.remove(&OwnedTerm::atom(field));
+        if from_term::<Item>(&OwnedTerm::Map(m)).is_ok() { rep.violation("derived struct fabricates a missing field", json!({"field": field})); }
+        let mut m = gm.clone();
+        m.insert(OwnedTerm::atom(field), OwnedTerm::Tuple(vec![]));
+        if from_term::<Item>(&OwnedTerm::Map(m)).is_ok() { rep.violation("derived struct accepts a field of the wrong type", json!({"field": field})); }
+    }
+    // 4. not a map at all
+    for t in [OwnedTerm::Nil, OwnedTerm::Tuple(vec![OwnedTerm::atom("Elixir.MyApp.Item")]), OwnedTerm::atom("Elixir.MyApp.Item"), OwnedTerm::List(vec![])] {
+        rep.add("evaluations", 1);
+        if from_term::<Item>(&t).is_ok() { rep.violation("derived struct accepts a term that is not a map", json!({"term": format!("{:?}", t)})); }
+    }
+    json!({"derived_struct_shape_cases": rep.get("evaluations") - n0})
+}
+
 fn main() {
     let args: Vec<String> = std::env::args().collect();
-    if args.get(1).map(|s| s.as_str()) != Some("c15") { eprintln!("usage: serdemc c15"); std::process::exit(2); }
+    if args.get(1).map(|s| s.as_str()) == Some("c20") {
+        let code = vcore::report::run_guarded("C20", "exploration", |rep| {
+            let extra = derived_struct_shapes(rep);
+            check(rep, "Item (ElixirStruct)", &Item { count: i64::MIN, label: "é".into(), maybe: None, list: vec![] });
+            check(rep, "Event (ElixirStruct, keyword fields)", &Event { r#type: "t".into(), r#ref: -1, r#fn: Some(i32::MAX), plain: false });
+            json!({"evaluations": rep.get("evaluations"), "distinct_nontrivial": rep.get("evaluations"), "exhaustive": true, "shape_cases": extra,
+                "rule": "derived Elixir struct mapping: 13 module names around the declared one (prefixes, suffixes, case, missing Elixir. prefix), each field missing or of the wrong type, non-map terms, through from_term and from_bytes; two derived structs through both round trips; every case distinct"})
+        });
+        std::process::exit(code);
+    }
+    if args.get(1).map(|s| s.as_str()) != Some("c15") { eprintln!("usage: serdemc c15|c20"); std::process::exit(2); }
     let code = vcore::report::run_guarded("C15", "exploration", |rep| {
     let thorough = rep.thorough();
     // ---- integers: small widths over their whole range, wide ones at every power of two
@@ -203,6 +253,8 @@ fn main() {
     rep.sample(json!({"type": "i64", "values": "all +-(2^k + {-1,0,1}), k = 1..62, and the extremes"}));
     rep.sample(json!({"type": "Plain{id:i64,...}", "value": "Plain { id: 1099511627776, name: \"n\", ratio: 0.5, flag: true, tags: [1, 65535], opt: Some(7) }"}));
     rep.sample(json!({"type": "char", "values": if thorough { "all 1 112 064 scalar values" } else { "all below U+0800 and every plane boundary" }}));
+    let shapes = derived_struct_shapes(rep);
+    rep.set_extra("derived_struct_shapes", shapes);
     // the byte round trip must not depend on what the thread was asked to deserialise (and rejected) before
     {
         let nest = |pre: &[u8], d: usize| { let mut v = vec![131u8]; for _ in 0..d { v.extend_from_slice(pre); } v.extend_from_slice(&[97, 1]); v };
